@@ -103,6 +103,7 @@ class Batch:
         self.bye = []
         self.proc_runs = {}      # worker process launch id -> run indices in the order that process executed them
         self.run_proc = {}       # run index -> launch id
+        self.proc_cold = {}      # launch id -> the process started cold (its first run carried cold: true)
         self.nlaunch = 0
 
     def worker_cmd(self, w, nworkers, start, total, budget, samples):
@@ -155,6 +156,7 @@ class Batch:
                     self.nlaunch += 1
                     launch = self.nlaunch
                     self.proc_runs[launch] = []
+                    self.proc_cold[launch] = "--cold" in cmd
                 last_idx = None
                 got_bye = False
                 hung = False
@@ -242,6 +244,11 @@ class Batch:
             return []
         order = self.proc_runs.get(launch, [])
         return order[:order.index(idx)] if idx in order else []
+
+    def first_of_cold_process(self, idx):
+        launch = self.run_proc.get(idx)
+        order = self.proc_runs.get(launch, [])
+        return bool(launch is not None and self.proc_cold.get(launch) and order and order[0] == idx)
 
     def genplan(self, idx):
         cmd = [self.exe, "genplan", "--property", self.prop, "--tier", self.tier, "--seed", str(self.seed), "--index", str(idx)]
@@ -338,6 +345,8 @@ def with_process_history(exe, sym, batch, idx, plan, cls, sig, budget_s=240):
     def plan_of(i):
         if i not in cache:
             cache[i] = batch.genplan(i)
+            if cache[i] is not None and batch.first_of_cold_process(i):
+                cache[i]["cold"] = True     # the worker process started with this plan, cold
         return cache[i]
 
     def reproduces(prelude, times=2):
@@ -356,6 +365,8 @@ def with_process_history(exe, sym, batch, idx, plan, cls, sig, budget_s=240):
     chosen = None
     while True:
         sel = preds[-k:]
+        if batch.first_of_cold_process(preds[0]) and preds[0] not in sel:
+            sel = [preds[0]] + sel      # a process that started cold: what its first plan left behind is part of every later history
         pl = [plan_of(i) for i in sel]
         if all(p is not None for p in pl) and reproduces(pl):
             chosen = pl
@@ -368,6 +379,9 @@ def with_process_history(exe, sym, batch, idx, plan, cls, sig, budget_s=240):
     # drop prelude plans that are not needed (oldest first)
     i = 0
     while i < len(chosen) and len(chosen) > 1 and time.time() - t0 < budget_s:
+        if chosen[i].get("cold"):
+            i += 1            # the cold first plan of the process is what makes the process cold: keep it
+            continue
         cand = chosen[:i] + chosen[i + 1:]
         if reproduces(cand, times=1):
             chosen = cand
